@@ -176,7 +176,7 @@ def datagrams(run, deep=False):
     else:
         out += length_sweep(rng, list(range(0, 621)) + [751, 753, 1000, 2000], (0, 1))
         out += length_sweep(rng, list(range(0, 14)) + [154, 156, 159, 450, 452, 455, 512, 600], range(2, 16))
-    for _ in range(run.scale(3000, 30000) * mult):
+    for _ in range(run.scale(3000, 12000) * mult):
         out.append(T.rand_bytes(rng))
     seen, uniq = set(), []
     for b in out:
@@ -220,7 +220,7 @@ def if_histories(run, deep=False):
         kind, m, legacy, b = rng.choice(cand)
         return (("T" if side == "tx" else "R"), b, (kind, m))
 
-    for i in range(run.scale(1200, 8000) * (3 if deep else 1)):
+    for i in range(run.scale(1200, 4000) * (3 if deep else 1)):
         ops = []
         cur = 0
         side = rng.choice(["tx", "rx"])
@@ -255,7 +255,7 @@ def parse_sequences(run, deep=False):
     bs, pool = datagrams(run, deep)
     short = [b for b in bs if len(b) <= 40] or bs
     out = []
-    for _ in range(run.scale(250, 3000) * (3 if deep else 1)):
+    for _ in range(run.scale(250, 1500) * (3 if deep else 1)):
         items = []
         for _ in range(rng.choice([2, 3, 5])):
             if rng.random() < 0.6:
@@ -303,7 +303,7 @@ def captures(run, deep=False):
     rng = run.rng
     out = [(b"", []), (b"\x01", []), (b"\x01\x00", []), (b"\x01\x00\x00", None), (b"\x02\xff\xff", []), (b"\x00\x00\x00", []),
            (b"\x01\x00\x00" * 6, None), (b"\xff" * 40, [])]
-    for _ in range(run.scale(100, 600) * (3 if deep else 1)):
+    for _ in range(run.scale(100, 300) * (3 if deep else 1)):
         ms = capture_msgs(rng, rng.choice([1, 2, 3, 4]))
         recs = [record(tag_of(k), p) for k, m, p in ms]
         data = b"".join(recs)
@@ -400,7 +400,7 @@ def dump_histories(run, deep=False):
     rng = run.rng
     caps = captures(run, deep)
     out = []
-    for _ in range(run.scale(250, 3000) * (3 if deep else 1)):
+    for _ in range(run.scale(250, 1500) * (3 if deep else 1)):
         data, good = rng.choice(caps)
         n = len(good) if good is not None else 2
         pre = [rand_read(rng, n) for _ in range(rng.choice([1, 2, 3, 5]))]
